@@ -15,9 +15,9 @@ import (
 
 func init() {
 	Registry["C07"] = Spec{
-		Fn:    c07,
-		Level: "fault_enumeration",
-		Rule: "encodings = library-encoded blocks of every catalogue column and of random compositions (as C01) and every protocol message at threshold-neighbour revisions (as C17); fault points = every cut position 0..len-1 for encodings <= 1 KiB (quick) / 4 KiB (thorough), otherwise all positions of the first and last 200/512 bytes plus 200/512 random cuts; blocks with the tested column first, last or alone, and blocks that end inside a 40 KiB..1 MiB string; plain stream and one compressed frame per method (None, LZ4, LZ4HC, ZSTD; cuts inside checksum, header, body); typed and inferred (Results.Auto) decoding. A violation is a proper prefix whose decode returns nil. Non-trivial = encoding of >= 2 bytes; distinct = (encoding, transport, decoder, cut)",
+		Fn:          c07,
+		Level:       "fault_enumeration",
+		Rule:        "encodings = library-encoded blocks of every catalogue column and of random compositions (as C01) and every protocol message at threshold-neighbour revisions (as C17); fault points = every cut position 0..len-1 for encodings <= 1 KiB (quick) / 4 KiB (thorough), otherwise all positions of the first and last 200/512 bytes plus 200/512 random cuts; blocks with the tested column first, last or alone, and blocks that end inside a 40 KiB..1 MiB string; plain stream and one compressed frame per method (None, LZ4, LZ4HC, ZSTD; cuts inside checksum, header, body); typed and inferred (Results.Auto) decoding. A violation is a proper prefix whose decode returns nil. Non-trivial = encoding of >= 2 bytes; distinct = (encoding, transport, decoder, cut)",
 		Assumptions: []string{"the complete encoding decodes and consumes exactly its length (checked here first; otherwise the case is skipped and left to C01/C17)"},
 		MinDistinct: 2000,
 	}
@@ -66,7 +66,7 @@ func catalogueIndex(ts string) int {
 func c07(r *core.Run) {
 	var ci int64
 	// ---- blocks ----
-	nRandom := r.Pick(200, 6000)
+	nRandom := r.Pick(200, 2000)
 	total := len(val.Catalogue) + nRandom + len(c07TailTypes)*3
 	for k := 0; k < total; k++ {
 		ci++
